@@ -191,6 +191,26 @@ PROPS["C14"] = dict(
     floor=dict(quick=5000, thorough=50000),
 )
 
+PROPS["C13"] = dict(
+    level="exploration",
+    technique="rapidcheck differential testing against OpenSSL (digests, SHAKE XOF, HMAC, TLS1-PRF, HKDF, low-level contexts with explicit state) and harness references (MGF1, SP 800-90A HMAC_DRBG, the documented AESCTR_DRBG construction) under generated update/produce partitions; exhaustive outCT triple enumerator",
+    rule=("case kinds: hash (7 functions; length 0..1100 biased to the 55/56/64/111/112/128 padding boundaries; up to 5 updates incl. empty; "
+          "intermediate out(); state()/set_state() into a fresh context at a block boundary), length-carry (set_state with generated chaining value "
+          "and count just below 2^32 / 2^64 bits), multihash (any subset), SHAKE128/256 (inject and produce in pieces), HMAC (key 0..200, partial "
+          "output length, out() then more data), outCT (prefix 0..140, min <= len <= max <= 3 blocks + 9), TLS 1.0 / 1.2 PRFs (0..4 seed chunks, "
+          "output 0..1000), HKDF (salt/no-salt, IKM in pieces, output in pieces), MGF1, HMAC_DRBG and AESCTR_DRBG generate/update sequences (incl. "
+          "crossing the 32768-block forced update). non-trivial = >= 2 non-empty updates or a state restore or min < len < max or a multi-call "
+          "sequence; distinct = (function, lengths, partition shape)"),
+    assumptions=["OpenSSL 3.0 digests, HMAC, TLS1-PRF, HKDF and AES are correct",
+                 "AESCTR_DRBG has no external standard: the reference follows the construction described in aesctr_drbg.c with the constants the code uses (the comment says H_init = A5, the code uses 5A: noted as an observation)"],
+    targets=[dict(name="c13_hash", src="c13_hash.cpp", flavour="san", libs=CRYPTO)],
+    quick=[("c13_hash", "enum", dict(shards=16)),
+           ("c13_hash", "rc", dict(cases=160000, shards=16))],
+    thorough=[("c13_hash", "enum", dict(shards=16)),
+              ("c13_hash", "rc", dict(cases=4000000, shards=16))],
+    floor=dict(quick=10000, thorough=100000),
+)
+
 # ---------------------------------------------------------------- manifest text
 HOOK_COMMITS = ["b37444c", "e1637c5"]
 NOT_APPLICABLE = {}
@@ -281,4 +301,12 @@ MANIFEST_TEXT["C14"] = dict(
           "negative checks: any generated single-bit change must fail check_tag, forbidden CCM parameters must be refused by reset."),
     design_ref="DESIGN.md section 4, C14",
     note="trusts OpenSSL EVP (GCM, CCM, CMAC, AES); EAX composition written in the harness from the EAX paper",
+)
+
+MANIFEST_TEXT["C13"] = dict(
+    text=("Differential testing of every hash, MAC, PRF, KDF and DRBG against independent implementations under generated call patterns "
+          "(arbitrary update partitions, interleaved outputs, saved/restored states incl. the bit-length carry, piecewise XOF/KDF output), and "
+          "for HMAC with hidden length all (min,len,max) triples up to three blocks in thorough mode (strided in quick) with TLS-like prefixes."),
+    design_ref="DESIGN.md section 4, C13",
+    note="trusts OpenSSL; DRBG/MGF1 references are short harness implementations of SP 800-90A / PKCS#1 B.2.1 / the documented AESCTR construction",
 )
